@@ -1,10 +1,10 @@
 // Verification harness for C14, daemon half: the holders of policy objects OUTSIDE `PolicyTable` —
 // the copies published in `TableManager.{import_policy, export_policy}` and every peer's
 // `PeerState.export_policy` override — driven through the REAL daemon entry points:
-//   Global::{add_policy, delete_policy, add_policy_assignment, delete_policy_assignment, add_peer},
-//   the gRPC handlers set_policy_assignment / set_policies / delete_peer of the real `GrpcService`,
-//   and (as the gRPC set/statement handlers do after message conversion) `global.ptable` directly
-//   for defined sets and statements.
+//   the gRPC handlers of the real `GrpcService` for every policy call (add/delete defined set,
+//   statement, policy, policy assignment; set_policy_assignment, set_policies, delete_peer),
+//   Global::add_peer for peers (the gRPC AddPeer would start connecting), and `global.ptable`
+//   directly only for the statements an `api::Statement` cannot say.
 // Compiled into rustybgpd's unit-test binary only with `--cfg osrg_rustybgp_verif` and
 // `--cfg verif_c14` (or verif_all).  Grand-child of `crate::event`.
 //
@@ -142,6 +142,13 @@ fn api_assignment(name: &str, dir: table::PolicyDirection, dflt: table::Disposit
         direction: api_dir(dir),
         policies: pols.iter().map(|p| api::Policy { name: p.clone(), statements: Vec::new() }).collect(),
         default_action: api_action(dflt),
+    }
+}
+
+fn api_policy(name: &str, stmts: &[String]) -> api::Policy {
+    api::Policy {
+        name: name.to_string(),
+        statements: stmts.iter().map(|n| api::Statement { name: n.clone(), conditions: None, actions: None }).collect(),
     }
 }
 
@@ -489,16 +496,25 @@ async fn exec_dop(w: &World, t: &Term) -> Option<Term> {
                 _ => return None,
             }
         }
-        ("pol-add", 2) => dres(&w.global.write().await.add_policy(a[0].as_atom()?, names_of(&a[1])?)),
-        ("pol-del", 4) => dres(&w.global.write().await.delete_policy(w.tables.clone(), a[0].as_atom()?, a[1].as_bool()?, a[2].as_bool()?, names_of(&a[3])?)),
+        // policies and assignments: the real AddPolicy / DeletePolicy / AddPolicyAssignment /
+        // DeletePolicyAssignment handlers (message -> Global wrapper -> published copies)
+        ("pol-add", 2) => {
+            let pol = api_policy(a[0].as_atom()?, &names_of(&a[1])?);
+            status_res(&w.svc.add_policy(tonic::Request::new(api::AddPolicyRequest { policy: Some(pol), ..Default::default() })).await)
+        }
+        ("pol-del", 4) => {
+            let pol = api_policy(a[0].as_atom()?, &names_of(&a[3])?);
+            status_res(&w.svc.delete_policy(tonic::Request::new(api::DeletePolicyRequest { policy: Some(pol), preserve_statements: a[1].as_bool()?, all: a[2].as_bool()? })).await)
+        }
         ("asg-add", 4) => {
             let (name, _) = holder_of(&a[0])?;
             let req = api_assignment(&name, dir_of(&a[1])?, disp_of(&a[2])?, &names_of(&a[3])?);
-            dres(&w.global.write().await.add_policy_assignment(w.tables.clone(), req))
+            status_res(&w.svc.add_policy_assignment(tonic::Request::new(api::AddPolicyAssignmentRequest { assignment: Some(req) })).await)
         }
         ("asg-del", 4) => {
             let (name, _) = holder_of(&a[0])?;
-            dres(&w.global.write().await.delete_policy_assignment(w.tables.clone(), name, dir_of(&a[1])?, names_of(&a[3])?, a[2].as_bool()?))
+            let req = api_assignment(&name, dir_of(&a[1])?, table::Disposition::Accept, &names_of(&a[3])?);
+            status_res(&w.svc.delete_policy_assignment(tonic::Request::new(api::DeletePolicyAssignmentRequest { assignment: Some(req), all: a[2].as_bool()? })).await)
         }
         ("asg-set", 4) => {
             let (name, _) = holder_of(&a[0])?;
